@@ -13,7 +13,7 @@ use neurons::tensor::Tensor;
 pub fn meta(ctx: &Ctx) -> Meta {
     let e = max_epochs(ctx);
     Meta {
-        rule: format!("every validation-loss trajectory in {{rise,fall,equal}}^(E-1) for epoch budgets E in 1..{} x every tolerance T in 1..5, plus tolerances 6..12, 16, 20 with budgets T+1, T+2, T+4 on all trajectories with at most two non-rise events, with validation data (also with print frequencies 1, 2 and beyond the budget on a third of them, and a third of them at a tiny scale: loss 2^-20 moving in steps of 2^-27); every E in 1..{} without; the unmodified learn() is driven through each of them and the commanded pattern is re-derived from the returned vector (only matching runs count). Oracle over what learn() returned: len(train)=n; len(val_loss)=len(val_acc)=n (0 and n=E without validation data); stop(e) := e>T and the last T recorded losses strictly increasing is false for every e<n; if n<E then stop(n). States = (epoch, pattern prefix) pairs visited; transitions = epochs run; non-trivial = trajectories with at least one rise", e, e),
+        rule: format!("every validation-loss trajectory in {{rise,fall,equal}}^(E-1) for epoch budgets E in 1..{} x every tolerance T in 1..5, plus tolerances 6..12, 16, 20 with budgets T+1, T+2, T+4 on all trajectories with at most two non-rise events, with validation data (also with print frequencies 1, 2 and beyond the budget on a third of them, a third of them at a tiny scale: loss 2^-20 moving in steps of 2^-27, and a third at a large offset: loss 2^20 moving by one unit in the last place per epoch); every E in 1..{} without; the unmodified learn() is driven through each of them and the commanded pattern is re-derived from the returned vector (only matching runs count). Oracle over what learn() returned: len(train)=n; len(val_loss)=len(val_acc)=n (0 and n=E without validation data); stop(e) := e>T and the last T recorded losses strictly increasing is false for every e<n; if n<E then stop(n). States = (epoch, pattern prefix) pairs visited; transitions = epochs run; non-trivial = trajectories with at least one rise", e, e),
         bound: format!("E <= {}, T <= 5; complete", e),
         exhaustive: true,
         assumptions: vec!["stop rule read as in the statement's anchor: the window of the last T recorded validation losses is strictly increasing (T-1 comparisons) and more than T epochs have run".into()],
@@ -69,7 +69,9 @@ pub fn check(case: &Kv, rep: &mut Report) {
     let xs: Vec<Tensor> = (0..k).map(|i| Tensor::one_hot(i, k)).collect();
     let ts: Vec<Tensor> = (0..k).map(|i| Tensor::single(vec![targets[i]])).collect();
     let xv = tensor(Dims::Flat(k), &a.iter().map(|v| *v as f32).collect::<Vec<_>>());
-    let tv = Tensor::single(vec![if tiny { 9.536_743e-7 } else { 1000.0 }]);
+    // "offset": a loss of 2^20 moving by 1/8 per epoch - one unit in the last place, a relative change of 1.2e-7
+    let offset = case.opt("scale") == Some("offset");
+    let tv = Tensor::single(vec![if tiny { 9.536_743e-7 } else if offset { 1_048_576.0 } else { 1000.0 }]);
     let xr: Vec<&Tensor> = xs.iter().collect();
     let tr: Vec<&Tensor> = ts.iter().collect();
     let vx = vec![&xv];
@@ -172,6 +174,9 @@ pub fn cases(ctx: &Ctx) -> Vec<Kv> {
                 // the reporting frequency must not influence the contract (output is diverted)
                 if (code + tol) % 3 == 1 {
                     out.push(Kv::new().put("epochs", epochs).put("tol", tol).put("val", 1).put("pattern", &pat).put("scale", "tiny"));
+                }
+                if (code + tol) % 3 == 2 {
+                    out.push(Kv::new().put("epochs", epochs).put("tol", tol).put("val", 1).put("pattern", &pat).put("scale", "offset"));
                 }
                 for print in [1usize, 2, epochs + 5] {
                     if (code + tol + print) % 3 == 0 {
